@@ -3,6 +3,7 @@
    Model/Imports.v is corresponded against the real restorer (Cases/C17_cases.v). *)
 From Coq Require Import List String ZArith NArith Bool.
 Import ListNotations.
+From DV Require Import Model.Decision Gen.DecisionSrc Proofs.ParseFileProofs.
 From DV Require Import Model.Decision Gen.DecisionSrc Proofs.ImportLoopsProofs.
 From DV Require Import Model.Tree Model.Tables Model.Maps Model.Imports Proofs.ImportsProofs
      Gen.ImportsSrc Gen.ErrProp Gen.DecTbl Gen.Universe.
@@ -80,6 +81,22 @@ Proof. split; [exact resolve_names_source_is_model | exact resolve_all_by_steps]
 Theorem C17_resolve_loop_is_within_the_vocabulary : import_loops_vocabulary_ok = true.
 Proof. vm_compute. reflexivity. Qed.
 
+
+(* Decorator.ParseFile (and Parse, ParseDir's per-file use) is translated on every run (functions with several
+   results: "return a, b" as one symbol, "a, b := CALL" as the two components of the call) and proved to
+   compute, for every answer of the parser and of the decoration: nothing and the parser's error when the
+   parser returned no file or a placeholder without a position; else nothing and the decoration's error (a
+   failing resolver) whatever the parser reported; else the decorated file together with the parser's error *)
+Theorem C17_parsefile_source_computes_the_model :
+  (forall perr_nil file_nil pos_valid dec_fails,
+    pf_outcome (run (pf_val perr_nil file_nil pos_valid dec_fails) parsefile_src)
+    = Some (parsefile_spec perr_nil file_nil pos_valid dec_fails)) /\
+  (forall perr_nil, parsefile_spec perr_nil false true true = NothingWithDecorationError).
+Proof. split; [exact parsefile_source_is_model | exact decoration_error_wins]. Qed.
+
+Theorem C17_parsefile_source_is_within_the_vocabulary : parsefile_vocabulary_ok = true.
+Proof. vm_compute. reflexivity. Qed.
+
 Print Assumptions C17_restore_resolves_before_it_mutates.
 Print Assumptions C17_errors_are_propagated.
 Print Assumptions C17_decorator_checks_errors_and_writes_nothing.
@@ -87,3 +104,5 @@ Print Assumptions C17_failure_is_an_unresolvable_reference.
 Print Assumptions C17_working_resolver_succeeds.
 Print Assumptions C17_resolve_loop_source_computes_the_model.
 Print Assumptions C17_resolve_loop_is_within_the_vocabulary.
+Print Assumptions C17_parsefile_source_computes_the_model.
+Print Assumptions C17_parsefile_source_is_within_the_vocabulary.
